@@ -208,6 +208,60 @@ def run(ctx):
         hs.append((r.choice(["astm", "lis2a", "json"]), timeout, evs, {"nontrivial": big}))
         a.count("timeout=%s" % timeout)
     run_timed(a, hs, ctx, conn_cls=impl.RealLoopConn)
+    # a transfer may last arbitrarily long as long as it is paced: a hundred units just below the timeout apart
+    lp = Stream("long-paced-transfers")
+    hs = []
+    for _ in range(40 if ctx.thorough else 6):
+        T = r.choice([2, 5, 15])
+        t, evs = 0, [("r", 0, gens.ENQ)]
+        for i in range(r.choice([90, 120])):
+            t += r.choice([T - 1, T - 1, max(T - 2, 0)])
+            evs.append(("r", t, gens.message_frames(r, seq=(i + 1) % 8, parts=1)[0][0]))
+        t += T - 1
+        evs.append(("r", t, gens.EOT))
+        evs.append(("i", t + 5 * T))
+        hs.append(("astm", T, evs, {"nontrivial": True}))
+    run_timed(lp, hs, ctx)
+
+    # several connections open at the same time, each with its own pauses: the timer of a connection is armed,
+    # cancelled and fired by that connection's own units only
+    mc = Stream("several-connections")
+    for _ in range(3000 if ctx.thorough else 300):
+        timeout = r.choice([2, 5, 15])
+        k = r.choice([2, 2, 3])
+        fmt = r.choice(["astm", "lis2a"])
+        hists = [timed_history(r, timeout)[0] for _ in range(k)]
+        merged = sorted(((e[1], c, i, e) for c, h in enumerate(hists) for i, e in enumerate(h)), key=lambda x: (x[0], x[1], x[2]))
+        conns = [impl.Conn(fmt=fmt, timeout=timeout, peer=("10.0.0.%d" % (c + 1), 4000 + c)) for c in range(k)]
+        refs = [RefTimer(fmt, timeout) for _ in range(k)]
+        case = {"format": fmt, "timeout": timeout, "connections": [[tev_hex(e) for e in h] for h in hists]}
+        mc.case(case, nontrivial=True)
+        bad = None
+        for t, c, i, e in merged:
+            # the shared clock moves for everybody; timers of the other connections may fire meanwhile
+            for j, cn in enumerate(conns):
+                if j != c:
+                    cn.pending_fired = getattr(cn, "pending_fired", []) + cn.loop.advance(t)
+            cn = conns[c]
+            closes0 = cn.t.closes
+            fired = getattr(cn, "pending_fired", []) + cn.loop.advance(t)
+            cn.pending_fired = []
+            ob = None
+            if e[0] == "r":
+                ob = cn.event(("d", e[2]))
+            elif e[0] == "l":
+                ob = cn.event(("L",))
+            exp_fired, exp = refs[c].expect(e)
+            why = None
+            if fired != exp_fired:
+                why = "timer closes at %s, expected %s" % (fired, exp_fired)
+            elif exp is not None:
+                why = oracles.observe_matches(exp, ob, recv.to_json_real)
+            if why:
+                bad = "connection %d, event %d (%s): %s" % (c, i, tev_hex(e)[:30], why)
+                break
+        if bad:
+            mc.fail(case, bad, "several-connections/" + bad.split(": ", 1)[1].split(" ")[0])
     x = Stream("exploratory-ties", in_domain=False)
     hs = []
     for _ in range(500):
@@ -215,7 +269,7 @@ def run(ctx):
         evs, big = timed_history(r, timeout, ties=True)
         hs.append(("astm", timeout, evs, {}))
     run_timed(x, hs, ctx, in_oracle=False)
-    return [s, a, x]
+    return [s, a, lp, mc, x]
 
 
 def search(ctx, disagreements):
